@@ -14,7 +14,8 @@ EXTENDS Unparse, Json
 
 CONSTANT MaxDepth
 
-Kinds == {"for", "fn", "partial", "cof", "cof2", "blkown"}
+\* foriter: a loop over an iterator (until(1)); cofdeep: the stored block is rendered from inside a loop body that has its own x
+Kinds == {"for", "fn", "partial", "cof", "cof2", "blkown", "foriter", "cofdeep"}
 \* bind: the construct itself binds x; let: it binds an unrelated name and its body lets x;
 \* bare: it binds nothing at all (function without parameters, partial / contentOf without data) and its body lets x
 Modes == {"bind", "let", "bare"}
@@ -34,7 +35,7 @@ Probe == <<Text(<<"[">>), Emit(Id("x")), Text(<<",">>), Emit(Id("t")), Text(<<"]
 ProbeAfter(j) == IF j <= Len(fs) THEN <<Text(<<"(">>), Emit(Id("x")), Emit(IfElse(Id(YN(j)), <<Text(<<"L">>)>>, <<Text(<<"-">>)>>)), Text(<<")">>)>> ELSE <<>>
 
 RECURSIVE Body(_), Construct(_)
-Body(i) == (IF fs[i].m \in {"let", "bare"} THEN <<Let("x", Str(XV(i)))>> ELSE <<>>)
+Body(i) == (IF fs[i].m \in {"let", "bare"} \/ fs[i].k = "foriter" THEN <<Let("x", Str(XV(i)))>> ELSE <<>>)
            \o <<Let(YN(i), Str(<<"y", D(i)>>))>> \o Probe
            \o (IF i < Len(fs) THEN Construct(i + 1) ELSE <<Text(<<"*">>)>>)
            \o ProbeAfter(i + 1)
@@ -59,6 +60,13 @@ Construct(i) ==
                                 Text(<<"/">>),
                                 Emit(Call("contentOf", <<Str(CN(i))>>)),
                                 Emit(IfElse(Id("w"), <<Text(<<"L">>)>>, <<Text(<<"-">>)>>))>>
+    [] fs[i].k = "foriter" -> <<Emit(For("", "u", Call("until", <<IntL(1)>>), Body(i)))>>
+    \* after contentOf returns, the loop body is still in the loop's scope: its own x and the loop variable
+    [] fs[i].k = "cofdeep" -> <<Code(CallB("contentFor", <<Str(CN(i))>>, Body(i))),
+                                Emit(For("", "u", Arr(<<Str(<<"u", "1">>), Str(<<"u", "2">>)>>),
+                                         <<Let("x", Str(<<"x", "n">>)),
+                                           Emit(IF Bare(i) THEN Call("contentOf", <<Str(CN(i))>>) ELSE Call("contentOf", <<Str(CN(i)), Hash(<<BN(i)>>, <<BV(i)>>)>>)),
+                                           Text(<<"LBR">>), Emit(Id("x")), Emit(Id("u")), Text(<<"RBR">>)>>))>>
     [] fs[i].k = "blkown"  -> <<Emit(CallB("blkown", <<IF Bare(i) THEN Hash(<<>>, <<>>) ELSE Hash(<<BN(i)>>, <<BV(i)>>)>>, Body(i)))>>
 
 Prog == <<Let("x", Str(<<"x", "0">>)), Let("t", Str(<<"t", "0">>))>> \o Probe
@@ -68,7 +76,7 @@ Parts == [nm \in {JoinChars(PN(i)) : i \in PartIdx} |-> Body(CHOOSE i \in PartId
 
 Init == fs = <<>> /\ res = [k |-> "none"]
 AddFrame == /\ res.k = "none" /\ Len(fs) < MaxDepth
-            /\ \E k \in Kinds, m \in Modes : fs' = Append(fs, [k |-> k, m |-> m])
+            /\ \E k \in Kinds, m \in Modes : (k = "foriter" => m = "let") /\ fs' = Append(fs, [k |-> k, m |-> m])
             /\ UNCHANGED res
 Finish == /\ res.k = "none" /\ Len(fs) >= 1
           /\ res' = Run(Prog, WithHelpers(EmptyScope), Parts, "")
@@ -90,7 +98,7 @@ RECURSIVE Inside(_)
 ProbeText(i) == <<"[">> \o XV(i) \o <<",", "t", "0", "]">>
 AfterText(j) == IF j <= Len(fs) THEN <<"(">> \o XV(j - 1) \o <<"-", ")">> ELSE <<>>
 Inside(i) == ProbeText(i) \o (IF i < Len(fs) THEN Inside(i + 1) ELSE <<"*">>) \o AfterText(i + 1)
-ProbeTheorem == (res.k = "out" /\ \A i \in 1..Len(fs) : fs[i].k # "cof2") => PiecesText(res.pieces) = ProbeText(0) \o Inside(1) \o AfterText(1) \o ProbeText(0)
+ProbeTheorem == (res.k = "out" /\ \A i \in 1..Len(fs) : fs[i].k \notin {"cof2", "cofdeep"}) => PiecesText(res.pieces) = ProbeText(0) \o Inside(1) \o AfterText(1) \o ProbeText(0)
 
 Expect(r) == CASE r.k = "out" -> [k |-> "out", pieces |-> r.pieces, log |-> r.log]
                [] r.k = "err" -> [k |-> "err", w |-> r.w, log |-> r.log]
